@@ -579,7 +579,17 @@ func spawnChild(p *Prop, env *Env, lo, hi int, out, logf string) (state string) 
 	if to <= 0 {
 		to = 10 * time.Minute
 	}
-	cmd := exec.Command(exe, "child", p.ID, env.Tier, strconv.FormatInt(env.Seed, 10), strconv.Itoa(lo), strconv.Itoa(hi), out, env.Scratch)
+	// every child is confined to its own directory (chroot): a broken path mapping in the code under test cannot
+	// reach the real file system, and cases cannot disturb each other's files
+	jail := out + ".jail"
+	_ = os.MkdirAll(jail, 0o777)
+	defer os.RemoveAll(jail)
+	defer func() {
+		if b, err := os.ReadFile(filepath.Join(jail, "out.jsonl")); err == nil {
+			_ = os.WriteFile(out, b, 0o644)
+		}
+	}()
+	cmd := exec.Command(exe, "child", p.ID, env.Tier, strconv.FormatInt(env.Seed, 10), strconv.Itoa(lo), strconv.Itoa(hi), "out.jsonl", jail)
 	lf, err := os.Create(logf)
 	if err != nil {
 		return "cannot create log: " + err.Error()
@@ -760,6 +770,12 @@ func childMain(args []string) int {
 	}
 	debug.SetMaxStack(256 << 20)
 	syscall.Umask(0)
+	if err := Jail(scratch); err == nil {
+		env.Scratch = "/"
+	} else {
+		fmt.Fprintln(os.Stderr, "warning: cannot chroot into the scratch directory:", err)
+		out = filepath.Join(scratch, out)
+	}
 	f, err := os.OpenFile(out, os.O_CREATE|os.O_WRONLY|os.O_APPEND, 0o644)
 	if err != nil {
 		fmt.Fprintln(os.Stderr, err)
@@ -776,6 +792,14 @@ func childMain(args []string) int {
 		fmt.Fprintf(f, "R %s\n", b)
 	}
 	return 0
+}
+
+// Jail confines the process to dir (chroot + chdir). Needs root.
+func Jail(dir string) error {
+	if err := syscall.Chroot(dir); err != nil {
+		return err
+	}
+	return os.Chdir("/")
 }
 
 // RunCase runs one case with a recover() so that an ordinary panic inside the harness's own
@@ -818,6 +842,9 @@ func replayMain(p *Prop, file, scratch string) int {
 	}
 	env.Verbose = true
 	syscall.Umask(0)
+	if err := Jail(scratch); err == nil {
+		env.Scratch = "/"
+	}
 	fmt.Printf("replaying %s case %d (tier=%s seed=%d), recorded sig: %s\n", p.ID, w.Witness.Idx, w.Tier, w.Seed, w.Sig)
 	r := RunCase(p, env, w.Witness.Idx)
 	out, _ := json.MarshalIndent(r, "", " ")
